@@ -28,7 +28,7 @@ KNOWN_KEY = "localfilter-ctor-run-equals-window"
 @st.composite
 def strand_cases(draw, tier):
     kmax = 5 if tier == "quick" else 6
-    k = draw(st.sampled_from([2, 3, 3, 4, 4, 5] + ([6] if tier != "quick" else [])))
+    k = draw(st.sampled_from([2, 3, 3, 4, 4, 5] * 3 + [7] + ([6, 6, 6, 8] if tier != "quick" else [])))
     if draw(st.booleans()):
         spec = {"local": gens.relax_until_satisfiable(draw(gens.local_filter_cfgs(k, decidable=True)))}
     else:
@@ -195,7 +195,7 @@ def evaluate_ctor_drawn(case):
 
 SUBCHECKS = [
     SubCheck("strands_obey_filter", evaluate_strands, strategy=strand_cases, examples=(2500, 15000), shards=(16, 16),
-             floors={"whole_sequence_checked": 150, "whole_sequence_windows>=24": 120, "src:local": 200, "src:user:forbidden": 40, "src:user:set": 40,
+             floors={"whole_sequence_checked": 150, "whole_sequence_windows>=24": 120, "k=7": 60, "src:local": 200, "src:user:forbidden": 40, "src:user:set": 40,
                      "trimmed": 40, "mixed_out_degrees": 100, "fast": 60, "table": 150}, rule=RULE, timeout=180.0),
     SubCheck("constructor", evaluate_ctor, enum=(lambda tier: len(CTOR), lambda i, tier: CTOR[i]), shards=(4, 4),
              exhaustive_space="all combinations of observed length 1..8, run limit none/0..k+2 and motif-length "
